@@ -1,5 +1,4 @@
 use std::collections::HashMap;
-use std::convert::TryFrom;
 use std::io::{Read, Seek};
 use std::time::Duration;
 
@@ -234,10 +233,14 @@ impl<R: Read + Seek> Mp4Reader<R> {
 
     pub fn duration(&self) -> Duration {
         // a timescale of 0 is meaningless; report a zero duration rather than divide by it
-        let millis = (self.moov.mvhd.duration as u128 * 1000)
-            .checked_div(self.moov.mvhd.timescale as u128)
-            .unwrap_or(0);
-        Duration::from_millis(u64::try_from(millis).unwrap_or(u64::MAX))
+        let timescale = self.moov.mvhd.timescale as u64;
+        if timescale == 0 {
+            return Duration::from_millis(0);
+        }
+        // whole seconds exactly (a Duration holds 64 bits of them), the rest in milliseconds
+        let duration = self.moov.mvhd.duration;
+        let millis = (duration % timescale) as u128 * 1000 / timescale as u128;
+        Duration::new(duration / timescale, millis as u32 * 1_000_000)
     }
 
     pub fn timescale(&self) -> u32 {
